@@ -447,6 +447,27 @@ func raceScenarios() []raceScenario {
 		a.Cut()
 		vsched.Quiesce()
 	}, false})
+	// (xi') the same with one of the two asking for a clean session (either one first)
+	for _, cleanFirst := range []bool{true, false} {
+		cleanFirst := cleanFirst
+		out = append(out, raceScenario{fmt.Sprintf("two overlapping handshakes with one client id, one of them CleanSession=1 (the older connection: %v)", cleanFirst), func() {
+			t := newTD()
+			a, err := t.w.Dial("A")
+			if err != nil {
+				return
+			}
+			b, err := t.w.Dial("B")
+			if err != nil || vsched.Failed() {
+				return
+			}
+			vsched.Mark()
+			a.Conn.Write(refcodec.Encode(ConnectPacket(ConnectOpts{ClientID: "x", Clean: cleanFirst, KeepAlive: 600, Will: &Will{"w/a", "will of A", 1, false}})))
+			b.Conn.Write(refcodec.Encode(ConnectPacket(ConnectOpts{ClientID: "x", Clean: !cleanFirst, KeepAlive: 600})))
+			vsched.Quiesce()
+			b.Cut()
+			vsched.Quiesce()
+		}, true})
+	}
 	return out
 }
 
